@@ -555,8 +555,8 @@ Fixpoint prop_get (p : w_prop) (name : qname) : option xtree :=
 Definition addressDataName : qname := (NS_CARD, "address-data").
 
 (** the common prelude of handleQuery / handleMultiget: Prop.Decode(&addressData)
-    (a missing property is ignored; any other decoding error is returned as it is,
-    hence 500), then decodeAddressDataReq *)
+    (a missing property is ignored; any other decoding error is wrapped in 400,
+    commit 3a8ceea), then decodeAddressDataReq *)
 Definition data_request_of (p : option w_prop) : res DataRequest :=
   match p with
   | None => Ok dr_zero
@@ -566,7 +566,7 @@ Definition data_request_of (p : option w_prop) : res DataRequest :=
              | Some (Elem n a k) =>
                match unmarshal_address_data wad_zero n a k with
                | Ok x => Ok x
-               | Err _ => plain_error
+               | Err _ => bad_request
                | Panic => Panic
                end
              | Some _ => Ok wad_zero
